@@ -476,4 +476,18 @@ func (engine) Body(r *simdrv.Run) {
 	if overlap > 0 {
 		r.Probe("overlapping-ops")
 	}
+	for sp := 0; sp < nSpans; sp++ {
+		n := 0
+		for i := range w.hist {
+			for j := range w.hist {
+				a, b := w.hist[i], w.hist[j]
+				if i < j && a.Input.(opIn).Span == sp && b.Input.(opIn).Span == sp && a.Input.(opIn).Kind == "end" && b.Input.(opIn).Kind == "end" && a.Call < b.Return && b.Call < a.Return {
+					n++
+				}
+			}
+		}
+		if n > 0 {
+			r.Fault("racing-end-calls")
+		}
+	}
 }
